@@ -40,6 +40,14 @@ Theorem valid_trace_fast_sound :
 Proof. exact C06_Global.valid_trace_fast_sound. Qed.
 Print Assumptions valid_trace_fast_sound.
 
+(* ... and the one that additionally compares, at every start, the model's skip decision with the implementation's *)
+Theorem valid_trace_skips_sound :
+  forall Rp Ra top tabs assign cap (atr : list (glabel Rp Ra * bool)),
+    valid_trace_skips Rp Ra top tabs assign cap atr = true ->
+    valid_trace Rp Ra (gdag_of_shared top tabs assign) cap (map fst atr) = true.
+Proof. exact C06_Global.valid_trace_skips_sound. Qed.
+Print Assumptions valid_trace_skips_sound.
+
 Theorem wf_dagb_sound : forall G, wf_dagb G = true -> wf_dag G.
 Proof. exact C06_Base.wf_dagb_sound. Qed.
 Print Assumptions wf_dagb_sound.
